@@ -994,7 +994,12 @@ def _walk_names(rng, base, k):
     ctr = int(rng.random() * 3)
     for _ in range(k):
         r = rng.random()
-        if r < 0.45:                              # inside the subtree, increasing
+        if cur and cur[-1] & 0x80 and r < 0.6:    # the previous name ended inside a sub-identifier: same again / longer
+            nm = cur if r < 0.3 else cur + bytes((0x80 | int(rng.random() * 128),))
+        elif r < 0.05:                            # a name whose last sub-identifier is not terminated
+            ctr += 1
+            nm = base + bytes((ctr & 0x7f,)) + bytes((0x80 | int(rng.random() * 128),)) * _ri(rng, 1, 3)
+        elif r < 0.45:                            # inside the subtree, increasing
             ctr += 1 + int(rng.random() * 2)
             nm = base + (bytes((ctr,)) if ctr < 128 else base128(ctr))
             if rng.random() < 0.3:
